@@ -39,7 +39,11 @@ LEVEL.update({
 LEVEL.update({
  "C03": ("Every panic-capable site (bounds assertions, slice ranges, arithmetic assertions, unwraps) in the 26 functions reachable from Message::from_octets is enumerated from MIR and discharged by a linear-constraint argument over dominating comparisons on the same cursor, range-loop indices, a magnitude rule for additions, or a checked structural justification; every decoder loop consumes input; the only recursion is the compression pointer with a strictly decreasing 14-bit offset; errors carry the header ID; the strictness guards (63/192/255/RDLENGTH) dominate acceptance; the reader layout equals the RFC table. Agreement with a reference decoder and the stack-overflow clause are declined (see DESIGN.md C03.4).", "3/C03"),
 })
+LEVEL.update({
+ "C17": ("All panic-capable sites in the 44 functions reachable from Zone::deserialise / Hosts::deserialise (72 indexing sites, string slices, arithmetic assertions, unwraps) are enumerated from MIR and discharged by linear constraints over dominating length comparisons (all guard shapes: >=, ==, match guards, early-return disjunctions via CUT-REACH), range-loop / iterator-non-empty facts, or checked structural justifications; every parser loop consumes input; recursion is on a strictly shorter label slice; the loader turns errors into the failure flag.", "3/C17"),
+})
 TECH = {
+ "C17": "custom MIR rules: panic-site enumeration + linear-constraint discharge over edge conditions (CUT-REACH for disjunctive guards), loop progress, recursion measure",
  "C03": "custom MIR rules: panic-site enumeration + discharge by linear constraints over dominating edge conditions (LEN-AI), loop progress, recursion measure, who-constructs, reader SEQ vs RFC table",
  "C04": "custom MIR rules: ARM-TABLE extraction and inversion, SEQ (ordered call sequence per match arm) reader/writer comparison against an RFC layout table, guard dominance with constant bounds",
  "C09": "custom MIR rules: arm tables from edge facts, ORIGIN of stored header fields and sent slices, who-calls, loop exit-edge analysis across spawned closures",
